@@ -14,6 +14,7 @@ import GqlVerif.Proofs.C01MixedF
 import GqlVerif.Proofs.C01MixedG
 import GqlVerif.Proofs.ModuleOkInputsMore
 import GqlVerif.Proofs.ModuleOkInputsClasses
+import GqlVerif.Proofs.C01NestedW
 open GqlVerif.C03
 #print axioms ok_iff_accepts
 #print axioms null_at_non_null_rejected
@@ -94,3 +95,7 @@ open GqlVerif.C03
 #print axioms GqlVerif.MOK.variantspread_precise_iff_inputs
 #print axioms GqlVerif.MOK.recfragment_precise_iff_inputs
 #print axioms GqlVerif.MOK.variantspread2_precise_iff_inputs
+-- NestedOp (P45)
+#print axioms GqlVerif.C01N.nested_precise_iff
+#print axioms GqlVerif.C01N.nx_precise
+#print axioms GqlVerif.C01N.nx2_precise
